@@ -151,9 +151,19 @@ def render_inst(inst, rng=None, comment_classes=()):
 HEADER = G.HEADER
 
 
-def render_file(schema_name, insts, rng=None, comment_classes=(), between=None):
+HEADERS = [
+    HEADER,
+    ("HEADER;\nFILE_DESCRIPTION(('first line','second ''quoted'' line'),'2;1');\n"
+     "FILE_NAME('a name','2001-02-03T04:05:06',('A. Author','B. Author','C'),('Org 1','Org 2'),'pre 1.0','sys','auth');\n"
+     "FILE_SCHEMA(('{S}'));\nENDSEC;\n"),
+    ("HEADER;\nFILE_DESCRIPTION ( ( 'x' ) , '2;1' ) ;\nFILE_NAME ( '' , '1999-12-31T23:59:59' , ( 'me' ) , ( '' , 'o' ) , '' , '' , '' ) ;\n"
+     "FILE_SCHEMA ( ( '{S}' ) ) ;\nENDSEC;\n"),
+]
+
+
+def render_file(schema_name, insts, rng=None, comment_classes=(), between=None, header=None):
     """whole exchange file; `between` = separator generator between instances"""
-    out = ["ISO-10303-21;\n", HEADER.replace("{S}", schema_name.upper()), "DATA;"]
+    out = ["ISO-10303-21;\n", (header or HEADER).replace("{S}", schema_name.upper()), "DATA;"]
     for i in insts:
         out.append(sep(rng, "top" in comment_classes) if rng is not None else "\n")
         out.append(i if isinstance(i, str) else render_inst(i, rng, comment_classes))
